@@ -134,6 +134,22 @@ Theorem C13_wls_equivariance_full :
 Proof. exact wls_full_equivariant. Qed.
 Print Assumptions C13_wls_equivariance_full.
 
+(* (5f) and the residual-scaled weighted fit (line_fit_rwls), same scale factors: values, dof,
+   N, ssr' = ga^2 ssr and -- sigma^2 = ssr/df scaling with ga^2 -- the covariance matrix as for OLS *)
+Theorem C13_rwls_equivariance_full :
+  forall (l : list pt) al be ga de dof fs fs', al <> 0 ->
+  g_line_fit_rwls RNum (map px l) (map py l) (map pu l) dof = Ok fs ->
+  g_line_fit_rwls RNum (map (fun p => al * px p + be) l) (map (fun p => ga * py p + de) l) (map pu l) dof = Ok fs' ->
+  let cab := fs_r fs * fs_au fs * fs_bu fs in
+  fs_bx fs' = ga * fs_bx fs / al /\ fs_ax fs' = ga * fs_ax fs + de - ga * fs_bx fs / al * be /\
+  fs_df fs' = fs_df fs /\ fs_n fs' = fs_n fs /\
+  fs_ssr fs' = ga * ga * fs_ssr fs /\
+  fs_bu fs' = Rabs (ga / al) * fs_bu fs /\
+  fs_au fs' * fs_au fs' = ga * ga * (fs_au fs * fs_au fs - 2 * (be / al) * cab + (be / al) * (be / al) * (fs_bu fs * fs_bu fs)) /\
+  fs_r fs' * fs_au fs' * fs_bu fs' = ga * ga / al * (cab - be / al * (fs_bu fs * fs_bu fs)).
+Proof. exact rwls_full_equivariant. Qed.
+Print Assumptions C13_rwls_equivariance_full.
+
 (* the same algebra for any design (weighted fits): transformed sums, transformed solution *)
 Theorem C13_normal_eqs_equivariant :
   forall S Sx Sy Sxx Sxy a b al be ga de, al <> 0 ->
